@@ -231,13 +231,17 @@ theorem disconnect_ends_both_ends :
 `Quiescent s`: nothing in flight (Lemmas/C08Quiet).  `Consistent s`: for live contexts `a`, `p` with a registered
 connection `cn` from `a` to `p`, and every (publisher, signal): `p` has `a` as remote subscriber ⇔ `a` has a receiver. -/
 
-/-- the full-strength statement of the property -/
+/-- the full-strength statement of the property (not proved: it needs the request / reply / notice pipeline invariant,
+see the module documentation of Lemmas/C08Carrier) -/
 def QuiescentConsistency : Prop := ∀ s, Reach s → Quiescent s → Consistent s
 
-/-- The witness (DESIGN §7 l): context 1 subscribes receiver 5 to object 0 / signal 0 of context 0 while context 0
-removes object 0.  The socket thread of context 0 has passed the double-check of `_handle_subscription_request`
-(`reqChk2`) when the removing thread runs `handle_object_removed` and enqueues the removal notice; only then does the
-socket thread enqueue its success reply.  Context 1 processes the notice first (nothing to drop), then the reply. -/
+/-- Historical example (DESIGN §7 l, repaired in /repo by the commit "a removal notice that overtakes the reply to a
+pending subscribe no longer leaves a dead subscription"): context 1 subscribes receiver 5 to object 0 / signal 0 of
+context 0 while context 0 removes object 0; the socket thread of context 0 has passed the double-check of
+`_handle_subscription_request` when the removing thread enqueues the removal notice, and only then enqueues its success
+reply.  On the pinned tree this schedule ended with the subscriber holding receiver 5 while the publisher had no
+remote subscriber.  With the repair the notice marks the pending request, the overtaken success reply counts as a
+failure, the subscribe call raises, and both tables are empty. -/
 def raceTrace : List Act := [
   .begin 0 0 (.makeObj 0), .micro (.user 0 0) 0 0, .micro (.user 0 0) 0 0, .micro (.user 0 0) 0 0,
   .connect 1 0,
@@ -260,91 +264,23 @@ def raceTrace : List Act := [
   .micro (.sock 0) 0 0,              -- has_peer_context for the reply
   .micro (.sock 0) 0 0,              -- reply enqueued: *behind* the notice
   .cb 0 true, .cb 0 true,            -- notice, then reply, written to the connection
-  .arrive 0 true, .micro (.sock 1) 0 0,     -- notice processed: nothing to drop
-  .arrive 0 true, .micro (.sock 1) 0 0,     -- success reply processed: receiver 5 installed
-  .micro (.user 1 0) 0 0, .micro (.user 1 0) 0 0]   -- subscribe returns normally
+  .arrive 0 true, .micro (.sock 1) 0 0,     -- notice processed: the pending subscribe request is marked
+  .arrive 0 true, .micro (.sock 1) 0 0,     -- overtaken success reply processed as a failure
+  .micro (.user 1 0) 0 0, .micro (.user 1 0) 0 0]   -- subscribe raises QMI_SignalSubscriptionException
 
-theorem raceTrace_below : ∀ a ∈ raceTrace, a.below 2 2 := by
-  intro a ha
-  simp only [raceTrace, List.mem_cons, List.not_mem_nil, or_false] at ha
-  rcases ha with rfl | rfl | rfl | rfl | rfl | rfl | rfl | rfl | rfl | rfl | rfl | rfl | rfl | rfl | rfl | rfl | rfl | rfl |
-    rfl | rfl | rfl | rfl | rfl | rfl | rfl | rfl | rfl | rfl | rfl | rfl | rfl <;> simp [Act.below, Th.below]
+/-- regression example: the racing schedule now ends consistent (kernel evaluation of the model) -/
+theorem raceTrace_ends_consistent :
+    (run State.init raceTrace).map (fun s =>
+      ((s.ctx 0).rsubs ⟨0, 0⟩, (s.ctx 1).lsubs ⟨.name 0, 0, 0⟩, (s.ctx 1).byId 0, (s.ctx 1).byKey ⟨.name 0, 0, 0⟩)) =
+      some ([], [], none, none) ∧
+    (run State.init raceTrace).map (fun s =>
+      ((s.prog (.user 1 0)).isEmpty, (s.ctx 0).loopQ.isEmpty, (s.ctx 1).loopQ.isEmpty)) = some (true, true, true) := by
+  constructor <;> decide
 
-/-- **the full statement is false of the faithful model** -/
-theorem quiescent_consistency_false : ¬ QuiescentConsistency := by
-  intro hq
-  have hrun : (run State.init raceTrace).isSome = true := by decide
-  obtain ⟨s, hs⟩ := Option.isSome_iff_exists.1 hrun
-  have hreach : Reach s := reach_run Reach.init hs
-  have hown : OwnersBelow State.init 2 := by intro cn cli; cases cli <;> simp [State.init, Conn.half, Half.init]
-  obtain ⟨hctx, hprog⟩ := run_bounded (B := 2) (T := 2) (by decide) raceTrace hs raceTrace_below hown
-  -- facts about the final state, by evaluation
-  have ev1 : (run State.init raceTrace).map (fun s =>
-      ((s.ctx 0).alive, (s.ctx 1).alive, (s.ctx 0).loopQ, (s.ctx 1).loopQ)) = some (true, true, [], []) := by decide
-  have ev2 : (run State.init raceTrace).map (fun s =>
-      ((s.prog (.user 0 0)).isEmpty, (s.prog (.user 0 1)).isEmpty, (s.prog (.user 1 0)).isEmpty, (s.prog (.user 1 1)).isEmpty,
-       (s.prog (.sock 0)).isEmpty, (s.prog (.sock 1)).isEmpty)) = some (true, true, true, true, true, true) := by decide
-  have ev3 : (run State.init raceTrace).map (fun s =>
-      ((s.ctx 1).peers (.name 0), (s.ctx 0).rsubs ⟨0, 0⟩, (s.ctx 1).lsubs ⟨.name 0, 0, 0⟩)) = some (some 0, [], [5]) := by decide
-  have ev4 : (run State.init raceTrace).map (fun s =>
-      ((s.ctx 0).nextReq, (s.ctx 1).nextReq, (s.ctx 1).byId 0, s.nextConn)) = some (0, 1, none, 1) := by decide
-  have ev5 : (run State.init raceTrace).map (fun s =>
-      ((s.conn 0).cli.inbox, (s.conn 0).srv.inbox, (s.conn 0).cli.isOpen, (s.conn 0).srv.isOpen)) = some ([], [], true, true) := by decide
-  rw [hs] at ev1 ev2 ev3 ev4 ev5
-  simp only [Option.map_some, Option.some.injEq, Prod.mk.injEq] at ev1 ev2 ev3 ev4 ev5
-  obtain ⟨e1, e2, e3, e4⟩ := ev1
-  simp only [List.isEmpty_iff] at ev2
-  obtain ⟨e5, e6, e7, e8, e9, e10⟩ := ev2
-  obtain ⟨e11, e12, e13⟩ := ev3
-  obtain ⟨e14, e15, e16, e17⟩ := ev4
-  obtain ⟨e18, e19, e20, e21⟩ := ev5
-  have lt_two : ∀ {n : Nat}, n < 2 → n = 0 ∨ n = 1 := by intro n h; omega
-  have lt_one : ∀ {n : Nat}, n < 1 → n = 0 := by intro n h; omega
-  have hcons := hq s hreach ?_
-  · have := (hcons 1 0 0 0 0 e2 e1 e11).2 (by rw [e13]; simp)
-    rw [e12] at this; simp at this
-  · -- quiescence of the final state
-    have hpendInv := pendInv_reach hreach
-    have hcases : ∀ c : Nat, c = 0 ∨ c = 1 ∨ 2 ≤ c := by intro c; omega
-    have hinit : ∀ c, 2 ≤ c → s.ctx c = CtxSt.init := fun c hc => by rw [hctx c hc]; rfl
-    constructor
-    · intro th _
-      by_cases hb : th.below 2 2
-      · cases th with
-        | user c t =>
-          simp only [Th.below] at hb
-          have hc : c = 0 ∨ c = 1 := lt_two hb.1
-          have ht : t = 0 ∨ t = 1 := lt_two hb.2
-          rcases hc with rfl | rfl <;> rcases ht with rfl | rfl <;> assumption
-        | sock c =>
-          simp only [Th.below] at hb
-          have hc : c = 0 ∨ c = 1 := lt_two hb
-          rcases hc with rfl | rfl <;> assumption
-      · rw [hprog th hb]; rfl
-    · intro c _
-      rcases hcases c with rfl | rfl | hc
-      · exact e3
-      · exact e4
-      · rw [hinit c hc]; rfl
-    · intro c id _
-      rcases hcases c with rfl | rfl | hc
-      · rcases Nat.lt_or_ge id (s.ctx 0).nextReq with h | h
-        · rw [e14] at h; exact absurd h (Nat.not_lt_zero _)
-        · exact ((hpendInv 0).fresh id h).1
-      · rcases Nat.lt_or_ge id (s.ctx 1).nextReq with h | h
-        · rw [e15] at h
-          have : id = 0 := lt_one h
-          subst this; exact e16
-        · exact ((hpendInv 1).fresh id h).1
-      · rw [hinit c hc]; rfl
-    · intro cn cli hlt hopen _
-      rw [e17] at hlt
-      have : cn = 0 := lt_one hlt
-      subst this
-      cases cli <;> simp only [Conn.half, Bool.not_true, Bool.not_false] at hopen ⊢
-      · exact ⟨e19, e20⟩
-      · exact ⟨e18, e21⟩
-
+/-- … and the subscribe call of that schedule ends with the subscription error -/
+theorem raceTrace_subscribe_raises :
+    ((run State.init raceTrace.dropLast).bind fun s => (step s (.micro (.user 1 0) 0 0)).map Prod.snd) =
+    some (.exc .subscription (.sub ⟨.name 0, 0, 0⟩ 5)) := by decide
 
 /-! ## No subscribe / unsubscribe call blocks for ever (local layer)
 
@@ -355,17 +291,18 @@ connection and the peer's socket thread, as for C01) is not mechanised — on th
 "the deterministic scheduler never reports a deadlock" (clause `blocks-forever`). -/
 
 /-- (1) a reply — success, failure, or the error reply generated for a closed connection — to a *subscribe* request
-completes the pending object, after which `wait` is enabled and returns the reply's verdict -/
+completes the pending object, after which `wait` is enabled and returns the reply's verdict (a success that was
+overtaken by the removal notice of its publisher counts as a failure) -/
 theorem reply_releases_waiters {s : State} {th th' : Th} {id pid : ReqId} {ok : Bool} {po : PObj} {rest rest' : List MOp}
     (hc : th'.ctx = th.ctx)
     (hid : (s.ctx th.ctx).byId id = some pid) (hpo : (s.ctx th.ctx).pobj pid = some po) (hsub : po.sub = true) :
     ∃ s' o, microStep s th 0 0 (.handleReply id ok) rest = some (s', o) ∧
-      (s'.ctx th.ctx).pobj pid = some { po with done := some ok } ∧
+      (s'.ctx th.ctx).pobj pid = some { po with done := some (ok && !po.cancelled) } ∧
       (microStep s' th' 0 0 (.wait pid) rest').isSome = true := by
   simp only [microStep, handleReplyStep, hid, hpo, hsub, if_true]
   refine ⟨_, _, rfl, by simp [upd], ?_⟩
   simp only [setProg_ctx, setCtx_ctx, hc, if_true, upd]
-  cases ok <;> simp
+  cases (ok && !po.cancelled) <;> simp
 
 /-- (2) a request whose local send fails (peer unknown, or `sendall` raises in the socket thread) is answered at once by
 an error reply handled in the same thread -/
